@@ -204,6 +204,15 @@ impl MinCostFlowSolver {
             .maximal_formation_count()
             .unwrap_or(100) as UpperBound;
 
+        // a connection between two activities can carry as many vehicles as its end points host:
+        // a formation for trips, but up to the allotted track count for maintenance slots
+        let maximal_flow_between_activities = maintenance_slots
+            .values()
+            .map(|count| *count as UpperBound)
+            .max()
+            .unwrap_or(0)
+            .max(maximal_formation_count_for_vehicle_type);
+
         let trip_node_count =
             self.network.service_nodes(vehicle_type).count() + self.network.depots_iter().count();
         // number of nodes in the flow network will be twice this number
@@ -328,8 +337,7 @@ impl MinCostFlowSolver {
 
                 cost_overflow_checker = cost_overflow_checker
                     .checked_add(
-                        cost.checked_mul(maximal_formation_count_for_vehicle_type)
-                            .unwrap(),
+                        cost.checked_mul(maximal_flow_between_activities).unwrap(),
                     )
                     .expect("overflow in cost_overflow_checker");
 
@@ -337,7 +345,7 @@ impl MinCostFlowSolver {
                     builder.add_edge(pred_right_rsnode, *left_rsnode),
                     EdgeLabel {
                         lower_bound: 0,
-                        upper_bound: maximal_formation_count_for_vehicle_type,
+                        upper_bound: maximal_flow_between_activities,
                         cost,
                     },
                 );
